@@ -35,6 +35,10 @@ def variants(algo, tier):
         out.append(("svd-fixed0", {"init": "svd", "fixed_modes": [0]}))
         out.append(("svd-fixed-last", {"init": "svd", "fixed_modes": "LASTONLY"}))
         out.append(("nn_modes-[0, 1]-svd-fixed0", {"init": "svd", "nn_modes": [0, 1], "fixed_modes": [0]}))
+        # a fixed mode in front of / between updated modes, with a strict subset of declared modes (position in the update sequence != mode number)
+        for fx in ([0], [1]):
+            for nn in ("MODES:LAST", "MODES:0,LAST", "MODES:0", "MODES:1,LAST"):
+                out.append((f"fixed{fx}-nn-{nn[6:]}", {"init": "random", "fixed_modes": fx, "nn_modes": nn}))
         out.append(("einsum-svd", {"init": "svd", "tenalg": "einsum"}))
         out.append(("einsum-nn_modes-[1]", {"init": "random", "nn_modes": [1], "tenalg": "einsum"}))
     elif algo == "non_negative_tucker":
@@ -215,6 +219,8 @@ class C10(Check):
                 v = [ndim - 1]
             elif v == "ALLLIST":
                 v = list(range(ndim))
+            elif isinstance(v, str) and v.startswith("MODES:"):
+                v = sorted({(ndim - 1 if t == "LAST" else int(t)) for t in v.split(":")[1].split(",")})
             elif isinstance(v, str) and v.startswith("DICT:"):
                 v = {(ndim - 1 if t == "LAST" else int(t)): True for t in v.split(":")[1].split(",")}
             elif isinstance(v, dict):
